@@ -270,3 +270,95 @@ pub fn rc_sanity_twin() {
     forget(r);
     vassert!(false, "sanity");
 }
+
+// ---------------------------------------------------------------------------------------
+// Accessors used by the symbol-level harnesses (BitTree / LenDecoder fields are private to
+// this module) and the bit-oracle stubs.
+// ---------------------------------------------------------------------------------------
+pub fn bt_addr<const N: usize>(t: &BitTree<N>, i: usize) -> usize {
+    &t.probs[i] as *const u16 as usize
+}
+pub fn bt_get<const N: usize>(t: &BitTree<N>, i: usize) -> u16 {
+    t.probs[i]
+}
+pub fn bt_set<const N: usize>(t: &mut BitTree<N>, i: usize, v: u16) {
+    t.probs[i] = v
+}
+pub fn len_choice_addr(l: &LenDecoder) -> usize {
+    &l.choice as *const u16 as usize
+}
+pub fn len_choice2_addr(l: &LenDecoder) -> usize {
+    &l.choice2 as *const u16 as usize
+}
+pub fn len_low_addr(l: &LenDecoder, ps: usize, m: usize) -> usize {
+    bt_addr(&l.low_coder[ps], m)
+}
+pub fn len_mid_addr(l: &LenDecoder, ps: usize, m: usize) -> usize {
+    bt_addr(&l.mid_coder[ps], m)
+}
+pub fn len_high_addr(l: &LenDecoder, m: usize) -> usize {
+    bt_addr(&l.high_coder, m)
+}
+/// value of a LenDecoder cell by logical name (0 choice, 1 choice2, 2 low, 3 mid, 4 high)
+pub fn len_cell(l: &LenDecoder, kind: u8, ps: usize, m: usize) -> u16 {
+    match kind {
+        0 => l.choice,
+        1 => l.choice2,
+        2 => l.low_coder[ps].probs[m],
+        3 => l.mid_coder[ps].probs[m],
+        _ => l.high_coder.probs[m],
+    }
+}
+pub fn len_cell_set(l: &mut LenDecoder, kind: u8, ps: usize, m: usize, v: u16) {
+    match kind {
+        0 => l.choice = v,
+        1 => l.choice2 = v,
+        2 => l.low_coder[ps].probs[m] = v,
+        3 => l.mid_coder[ps].probs[m] = v,
+        _ => l.high_coder.probs[m] = v,
+    }
+}
+
+/// Bit-oracle stub for `RangeDecoder::decode_bit`: the decision comes from the reader's tape
+/// (first byte exposed by fill_buf), and the address of the probability cell that was passed
+/// is reported to the reader through `consume(addr)`. An empty fill_buf = input exhausted.
+pub fn oracle_decode_bit<'a, R>(rc: &mut RangeDecoder<'a, R>, prob: &mut u16, update: bool) -> io::Result<bool>
+where
+    R: io::BufRead,
+    'a: 'a,
+{
+    let addr = prob as *mut u16 as usize;
+    let b = match rc.stream.fill_buf() {
+        Ok(buf) => {
+            if buf.is_empty() {
+                return Err(io::Error::from(io::ErrorKind::UnexpectedEof));
+            }
+            buf[0]
+        }
+        Err(e) => return Err(e),
+    };
+    rc.stream.consume(addr);
+    let bit = b & 1 == 1;
+    // (the probability value itself is neither read nor written: which cell was used is the
+    //  observable; the update arithmetic is decided with real code in rc_decode_bit_step)
+    Ok(bit)
+}
+
+/// Bit-oracle stub for `RangeDecoder::get_bit` (one direct bit): cell address 0.
+pub fn oracle_get_bit<'a, R>(rc: &mut RangeDecoder<'a, R>) -> error::Result<bool>
+where
+    R: io::BufRead,
+    'a: 'a,
+{
+    let b = match rc.stream.fill_buf() {
+        Ok(buf) => {
+            if buf.is_empty() {
+                return Err(error::Error::IoError(io::Error::from(io::ErrorKind::UnexpectedEof)));
+            }
+            buf[0]
+        }
+        Err(e) => return Err(error::Error::IoError(e)),
+    };
+    rc.stream.consume(0);
+    Ok(b & 1 == 1)
+}
